@@ -7,6 +7,16 @@
 set -u
 PROP=$1; DIR=$(realpath $2); TIER=${3:-quick}
 export GOFLAGS=-mod=mod GOPROXY=off GOSUMDB=off GOTOOLCHAIN=local
+if [ "${SEED_SKIP_CONFIRM:-0}" = "1" ]; then
+  # the change was confirmed earlier (suite passes, demonstration fails with / passes without): only re-run the check
+  if ! git -C /repo apply --check $DIR/patch.diff 2>/tmp/seed_apply.log; then echo "SEED $PROP $DIR patch-does-not-apply: $(head -2 /tmp/seed_apply.log)"; exit 4; fi
+  git -C /repo apply $DIR/patch.diff
+  cd /verif && timeout 3600 bin/symgo check $PROP --tier $TIER -no-evidence > /tmp/seed_check.log 2>&1; rc=$?
+  git -C /repo checkout -- . ; git -C /repo status --short | grep -v '^??' | head -3
+  echo "SEED $PROP $DIR suite=kept demo_with=kept demo_without=kept check_exit=$rc"
+  grep -E "^VIOLATION|^INCONCLUSIVE|^KNOWN-FINDING|  harness=|  \(engine-trace\)" /tmp/seed_check.log | cut -c1-300 | head -8
+  exit 0
+fi
 WT=$(mktemp -d /tmp/seedwt-XXXXXX); rmdir $WT
 git -C /repo worktree add -q --detach $WT HEAD || exit 3
 M=$(mktemp -d); cp $WT/go.mod $WT/go.sum $M/
